@@ -118,6 +118,12 @@ def layer_instances(tree: str, tier: str) -> list[LayerSpec]:
                 seen += 1
     if tier == "quick":
         out = out[:: max(1, len(out) // 120)]
+    # the documented single-string form of containing_modules("name") for layers that hold one module each: the
+    # definition itself (duplicate guard, lookup tables) must treat 'a.xy' as different from 'a.x'
+    import dataclasses
+
+    single = [s for s in out if all(len(p) == 1 for _, _, p in s.layers)]
+    out += [dataclasses.replace(s, str_form=True) for s in single[:: (2 if tier == "quick" else 1)]]
     return out
 
 
